@@ -206,7 +206,7 @@ def get_Werner_eof(dim:int, alpha:np.ndarray|float):
     if np.any(ind0):
         a = a[ind0]
         tmp0 = (1-np.sqrt(1-a*a))/2
-        ret[ind0] = -tmp0*np.log(tmp0) - (1-tmp0)*np.log(1-tmp0)
+        ret[ind0] = scipy.special.entr(tmp0) + scipy.special.entr(1-tmp0) #entr(x)=-x*log(x) with entr(0)=0, tmp0 underflows to 0 just above the threshold
     ret = ret.reshape(shape)
     return ret
 
@@ -295,8 +295,8 @@ def get_Isotropic_eof(dim:int, alpha:np.ndarray|float):
     F = (1+alpha*dim*dim-alpha)/(dim*dim)
     ind0 = np.logical_and(F>1/dim, F<=(4*(dim-1)/(dim*dim)))
     if np.any(ind0):
-        gamma = (np.sqrt(F[ind0])+np.sqrt((dim-1)*(1-F[ind0])))**2/dim
-        tmp0 = -gamma*np.log(gamma) - (1-gamma)*np.log(1-gamma)
+        gamma = np.minimum((np.sqrt(F[ind0])+np.sqrt((dim-1)*(1-F[ind0])))**2/dim, 1) #=1 at the threshold, up to rounding
+        tmp0 = scipy.special.entr(gamma) + scipy.special.entr(1-gamma) #entr(0)=0
         tmp1 = (1-gamma)*np.log(dim-1)
         ret[ind0] = tmp0 + tmp1
     ind1 = F>(4*(dim-1)/(dim*dim))
